@@ -9,6 +9,7 @@ plan's glyph map: the outline of a kept glyph is preserved by construction, not 
 (Proofs: Lemmas/SubsetOutline.lean … SubsetOutline7.lean.)
 -/
 import FontVerif.Lemmas.SubsetOutline12
+import FontVerif.Lemmas.SubsetOutline13
 set_option linter.unusedVariables false
 namespace FontVerif.C17Outline
 open FontVerif FontVerif.Subset FontVerif.SubsetOutline
@@ -133,6 +134,29 @@ theorem resubset_composite_glyph_unchanged (flags : Nat) (gmap gmap' : Nat → O
     subsetGlyphBytes flags gmap' out = .bytes out :=
   composite_resubset_idempotent flags gmap gmap' d out hs h hne hid
 
+/-- **composite_instruction_tail_preserved.**  The instruction handling of `subset_composite_glyph`, byte level, for every
+composite the subsetter keeps (written non-empty), every flag combination and glyph map.  Let `i` be where the component walk
+ends (the first byte after the last component record: 4 bytes + 2 / 4 argument bytes + 0 / 2 / 4 / 8 transform bytes per
+component, by its flag word) and `whi` = some component carried WE_HAVE_INSTRUCTIONS.  The walk writes only flag words and
+glyph ids inside the component records (`components_remapped`, `subset_composite_glyph_decodes_equal`): every byte from `i`
+on is the source's.  Then
+* under NO_HINTING, or when no component has WE_HAVE_INSTRUCTIONS: the record is cut at `i` — the instructions are dropped
+  exactly then;
+* otherwise, when the instruction length word fits (`i + 1 < len`): everything before `i` is the rewritten component list
+  and the tail is EXACTLY the source's `2 + instructionLength` bytes at `i` (length word + instructions; fewer only if the
+  record is shorter) — the instructions are preserved byte for byte;
+* otherwise (no room for the length word, fix 0b24b65): the record is kept up to `i`. -/
+theorem composite_instruction_tail_preserved (flags : Nat) (gmap : Nat → Option Nat) (d out : Bytes)
+    (h : subsetComposite flags gmap d = out) (hne : out ≠ []) :
+    ∃ full i whi, compLoop flags gmap d.length (d.length + 1) d 10 false = some (full, i, whi) ∧
+      full.length = d.length ∧ (∀ j, i ≤ j → full.getD j 0 = d.getD j 0) ∧
+      (hasFlag flags F_NO_HINTING = true → out = full.take i) ∧
+      (whi = false → out = full.take i) ∧
+      (hasFlag flags F_NO_HINTING = false → whi = true → i + 1 < d.length →
+        out.take i = full.take i ∧ out.drop i = (d.drop i).take (2 + u16At d i)) ∧
+      (hasFlag flags F_NO_HINTING = false → whi = true → ¬ (i + 1 < d.length) → out = full.take i) :=
+  composite_tail flags gmap d out h hne
+
 /-! ## non-vacuity -/
 
 /-- a 1-contour glyph with 3 points (flag 0x37 repeated twice: short positive x and y deltas), one instruction byte
@@ -184,5 +208,10 @@ example : (Glyf.readSimple [0, 1, 0, 0, 0, 0, 1, 244, 1, 244, 0, 2, 0, 0, 0x3F, 
 /-- `simple_glyph_emptied_only_if_undecodable` has instances: 4 points, one repeat run of 5 -/
 example : subsetGlyphBytes 0 (fun _ => none) [0, 1, 0, 0, 0, 0, 0, 9, 0, 9, 0, 3, 0, 0, 0x3F, 4, 1, 2, 3, 4, 5, 6, 7, 8, 0, 0] =
     .bytes [] := by decide
+
+/-- `composite_instruction_tail_preserved` on `exComposite` (walk ends at 26, 2 instruction bytes B0 B1, 2 padding bytes):
+kept without NO_HINTING, dropped with it -/
+example : (subsetComposite 0 exMap exComposite).drop 26 = [0, 2, 0xB0, 0xB1] := by decide
+example : (subsetComposite 1 exMap exComposite).length = 26 := by decide
 
 end FontVerif.C17Outline
